@@ -309,6 +309,25 @@ def extract(repo):
         else:
             raise Fail(f'{fn}: handling of process_msg errors not recognised')
     g['WORKER_MSG_ERROR_POLICY'] = pol
+    # a deferred index dump: every branch of `process_deferred_blob_index_dump` that leaves a record registered arms a
+    # deadline (`update_deadline`), and `defer_blob_indexes_dump` arms one unconditionally
+    body = fn_body(ow, 'process_deferred_blob_index_dump', 'in observer_worker.rs')
+    mi = body.find('try_run_old_blob_indexes_dump_task')
+    me = body.find('} else {', mi)
+    if mi < 0 or me < 0:
+        raise Fail('process_deferred_blob_index_dump: shape not recognised')
+    depth, j = 1, me + len('} else {')
+    while depth and j < len(body):
+        depth += {'{': 1, '}': -1}.get(body[j], 0)
+        j += 1
+    rerecord = body[me:j]
+    tail = body[j:]
+    dd = fn_body(ow, 'defer_blob_indexes_dump', 'in observer_worker.rs')
+    last_if = dd.rfind('if let Some(deferred) = &self.deferred_index_dump_info')
+    g['DEFERRED_ARMS_DEADLINE'] = [
+        'rerecord:' + ('update_deadline' if ('DeferredEventData::new' in rerecord and 'update_deadline' in rerecord) else 'none'),
+        'not-due:' + ('update_deadline' if 'update_deadline' in tail else 'none'),
+        'defer:' + ('update_deadline' if last_if >= 0 and 'update_deadline' in dd[last_if:] and dd[:last_if].count('update_deadline') == 0 else 'conditional-or-none')]
     # the writer's rotation test
     body = fn_body(sc, 'should_update_active_blob', 'in storage/core.rs')
     m1 = re.search(r'active_blob\.file_size\(\)\s*(>=|>|==|<=|<)\s*config_max_size', body)
